@@ -127,6 +127,19 @@ func rtBuild(b []byte) *rtNode {
 				if inScope("ruby") {
 					implied("rtc")
 				}
+			case tag == "option":
+				// "in select" (and "in body"): an open option ends
+				if cur().tag == "option" {
+					stack = stack[:len(stack)-1]
+				}
+			case tag == "optgroup":
+				// "in select": an open option and an open optgroup end
+				if cur().tag == "option" {
+					stack = stack[:len(stack)-1]
+				}
+				if cur().tag == "optgroup" && inScope("select") {
+					stack = stack[:len(stack)-1]
+				}
 			}
 			nn := &rtNode{tag: tag}
 			insert(nn)
@@ -156,6 +169,22 @@ func rtBuild(b []byte) *rtNode {
 			if inScope(tag) {
 				implied("")
 				popUntil(tag)
+			}
+		case tag == "optgroup" && inScope("select"):
+			// "in select": an option directly inside the optgroup ends with it; otherwise the end tag is ignored
+			if cur().tag == "option" && len(stack) >= 2 && stack[len(stack)-2].tag == "optgroup" {
+				stack = stack[:len(stack)-1]
+			}
+			if cur().tag == "optgroup" {
+				stack = stack[:len(stack)-1]
+			}
+		case tag == "option" && inScope("select"):
+			if cur().tag == "option" {
+				stack = stack[:len(stack)-1]
+			}
+		case tag == "select":
+			if inScope("select") {
+				popUntil("select")
 			}
 		default:
 			for k := len(stack) - 1; k >= 1; k-- {
@@ -260,6 +289,23 @@ func VerifHTMLTreeWitness(n int) {
 	verifHTMLTreeCheck([]byte(doc))
 }
 
+// VerifHTMLCommentLookahead: an end tag whose omission depends on the NEXT element, with a comment (or white space and
+// a comment) in between: the look-ahead must see the element, not the comment that is about to be removed.
+func VerifHTMLCommentLookahead(n int) {
+	open := []string{"<select><optgroup><option>a</option></optgroup>", "<select><optgroup><option>a</optgroup>", "<select><option>a</option>", "<dl><dt>a</dt>", "<ul><li>a</li>", "<div><p>a</p>"}[vChoice("open", 6)]
+	mid := []string{"<!--c-->", " <!--c--> ", "<!--c--><!--d-->", "", " "}[vChoice("mid", 5)]
+	next := []string{"<option>b</option></select>", "<optgroup><option>b</option></optgroup></select>", "</select>", "<dd>b</dd></dl>", "<li>b</li></ul>", "<p>b</p></div>", "b</div>", "<div>b</div></div>"}[vChoice("next", 8)]
+	// only matching containers
+	vAssume(rhHas([]byte(open), 0, "<select>") == rtSuffix(next, "</select>"))
+	vAssume(rhHas([]byte(open), 0, "<dl>") == rtSuffix(next, "</dl>"))
+	vAssume(rhHas([]byte(open), 0, "<ul>") == rtSuffix(next, "</ul>"))
+	vAssume(rhHas([]byte(open), 0, "<div>") == rtSuffix(next, "</div>"))
+	doc := append(append([]byte(open), mid...), next...)
+	verifHTMLTreeCheck(doc)
+}
+
+func rtSuffix(s, suf string) bool { return len(s) >= len(suf) && s[len(s)-len(suf):] == suf }
+
 func verifHTMLTreeCheck(in []byte) {
 	keepAll, keepSpecial := vBool("KeepComments"), vBool("KeepSpecialComments")
 	keepC := 0
@@ -277,12 +323,15 @@ func verifHTMLTreeCheck(in []byte) {
 	want := rtCanon(rtBuild(orig), keepC, nil)
 	got := rtCanon(rtBuild(out), keepC, nil)
 	if !rhEq(want, got) {
-		// recorded finding C03-F26: </li>, </dt>, </dd> are omitted unconditionally, so a kept comment that follows
+		// recorded finding C03-F26: </li>, </dt>, </dd>, </option> are omitted unconditionally, so a kept comment that follows
 		// such an end tag becomes a child of the element
 		if keepC > 0 && rhEq(rtCanon(rtBuild(orig), 0, nil), rtCanon(rtBuild(out), 0, nil)) {
 			for i := 0; i+5 < len(orig); i++ {
-				if rhHas(orig, i, "</li>") || rhHas(orig, i, "</dt>") || rhHas(orig, i, "</dd>") {
+				if rhHas(orig, i, "</li>") || rhHas(orig, i, "</dt>") || rhHas(orig, i, "</dd>") || rhHas(orig, i, "</option>") {
 					j := i + 5
+					if rhHas(orig, i, "</option>") {
+						j = i + 9
+					}
 					for j < len(orig) && rhWS(orig[j]) {
 						j++
 					}
